@@ -53,11 +53,6 @@ func verifMathMultiplyExact1000(mode int) {
 			nd.Assert(true, "overflow")
 		}
 	}
-	// symmetric use
-	r2, overflow2 := multiplyExact(1000, x)
-	if mode&mC13 != 0 && !overflow2 {
-		nd.Assert(fits && r2 == x*1000, "multiplyExact(1000, x): a product returned without the overflow flag is exact")
-	}
 }
 
 // floorDiv / floorMod by the constants used (1000, 86400): the floor quotient and the non-negative remainder
